@@ -482,6 +482,61 @@ def o_c08(tr):
                             yield {"oracle": "limit<=max", "signature": m, "detail": "%d: %d > %d" % (i, lim, d.regparams[m]["max"])}
 
 
+def o_decide_succeeds(tr):
+    """the signer list in force is the one that counts: a decision (accept or reject) on a raised order by an address on the
+    stored signer list — however that list spells it — which has not decided that order yet is accepted (single-message
+    transaction, valid signature, no fee, the only transaction of its block that touches the order)"""
+    for prev, b, d in states(tr):
+        if prev is None or not prev.ent_params or prev.ent_params["signers"] in ("-", ""):
+            continue
+        signers = set(addr_id(x) for x in prev.ent_params["signers"].split(","))
+        for tx in b["txs"]:
+            if tx["kinds"] != ["ent.decide"] or tx["result"] != "err":
+                continue
+            h = tx["hdr"]
+            if h.get("sig", "ok") != "ok" or h.get("fee", "-") != "-" or h.get("granter", "-") != "-" or h.get("payer", "-") != "-":
+                continue
+            ms = split_msgs(tx["body"])
+            if len(ms) != 1 or len(ms[0]) != 4 or ms[0][0] != "ent.decide" or not re.match(r"^\d+$", ms[0][1]):
+                continue
+            oid, dec, who = int(ms[0][1]), ms[0][2], addr_id(ms[0][3])
+            if dec not in ("2", "3") or who not in signers or h.get("signers", "") != ms[0][3].replace("U", "A", 1) or who not in prev.exists:
+                continue
+            po = prev.po.get(oid)
+            if po is None or po["status"] != 1 or any(addr_id(x[0]) == who for x in po["decisions"]):
+                continue
+            if oid not in d.po or d.po[oid]["status"] != 1:
+                continue   # this block's tally (which runs before the transactions) already closed the order
+            if sum(1 for t in b["txs"] if ("ent.decide %d " % oid) in t["line"]) != 1:
+                continue
+            yield {"oracle": "listed-signer-can-decide", "signature": "refused", "detail": "tx %s: %s is on the stored signer list (%s) and had not decided order %d: refused" % (tx["n"], ms[0][3], prev.ent_params["signers"], oid)}
+
+
+def o_c08_prune(tr):
+    """records are pruned only when the bought limit is exceeded, one per accepted record: over a block in which the limit of
+    a registration did not change, number held afterwards = min(number held before + records accepted in the block, limit)"""
+    for prev, b, d in states(tr):
+        if prev is None:
+            continue
+        for m in ("wrk", "bcn"):
+            for i, r in d.reg[m].items():
+                p = prev.reg[m].get(i)
+                if p is None or r["limit"] == "none" or p["limit"] != r["limit"] or p["num"] >= 20000:
+                    continue
+                lim = int(r["limit"])
+                acc = 0
+                for t in b["txs"]:
+                    if t["result"] != "ok":
+                        continue
+                    toks = t["line"].split()
+                    acc += sum(1 for j, w in enumerate(toks[:-1]) if w == m + ".rec" and toks[j + 1] == str(i))
+                want = min(p["num"] + acc, max(lim, p["num"]))
+                if p["num"] + acc > 20000:
+                    continue   # an export/import in between keeps the newest 20,000 only (by design)
+                if r["num"] != want:
+                    yield {"oracle": "pruned-only-when-full", "signature": m, "detail": "%s %d: held %d, %d record(s) accepted in the block at %d, limit %d: holds %d (want %d)" % (m, i, p["num"], acc, b["time"], lim, r["num"], want)}
+
+
 def o_c09(tr):
     for prev, b, d in states(tr):
         if prev is None:
@@ -869,7 +924,8 @@ def o_c06(tr):
 
 SIGNER_POS = {"ent.raise": 0, "ent.decide": 2, "ent.wl": 2, "wrk.reg": 4, "wrk.rec": 7, "wrk.buy": 2, "bcn.reg": 2, "bcn.rec": 3, "bcn.buy": 2,
               "str.create": 1, "str.claim": 0, "str.topup": 1, "str.rate": 1, "str.cancel": 1, "bank.send": 0, "authz.grant": 0,
-              "authz.revoke": 0, "authz.exec": 0, "feegrant.grant": 0}
+              "authz.revoke": 0, "authz.exec": 0, "feegrant.grant": 0,
+              "ent.params": 0, "wrk.params": 0, "bcn.params": 0, "str.params": 0}
 
 
 def o_c13(tr):
@@ -905,6 +961,8 @@ def o_c13(tr):
                 who = addr_id(args[SIGNER_POS[k]])
                 if not nested and who not in signed:
                     yield {"oracle": "signed-by-named-signer", "signature": k, "detail": "tx %s executed %s naming %s, signed by %s" % (tx["n"], k, who, sorted(signed))}
+                if k.endswith(".params") and who != "Mgov":
+                    yield {"oracle": "entitled", "signature": "params-authority", "detail": "tx %s executed %s naming %s as the authority" % (tx["n"], k, who)}
                 if k in ("ent.decide", "ent.wl") and who not in ent_signers:
                     yield {"oracle": "entitled", "signature": k, "detail": "tx %s: %s is not an authorised enterprise signer" % (tx["n"], who)}
                 if k == "ent.raise" and who not in set(prev.wl) and not any("ent.wl" in t["line"] for t in b["txs"]):
@@ -995,7 +1053,7 @@ def o_c20(tr):
         if a.get("rev") == "1":
             want = want[::-1]
         off = int(a["off"]); lim = int(a["lim"]) or 100
-        if off + lim >= 1 << 64:
+        if off + lim + 1 >= 1 << 64:   # the SDK's `end + 1` wraps (query.MaxLimit): the first page may be cut short, see C20.lean
             continue
         got = [] if r["items"] == "-" else r["items"].split(",")
         if got != want[off:off + lim]:
@@ -1213,8 +1271,8 @@ def o_record_query(tr):
 
 
 ORACLES = {
-    "C02": [o_c02, o_invariants, o_c03], "C03": [o_c03], "C04": [o_c04, o_invariants], "C05": [o_c05, o_c05_granter, o_c05_amount], "C07": [o_c07, o_c08, o_record_query], "C08": [o_c08, o_record_query],
-    "C09": [o_c09, o_owner_writes, o_import_same], "C10": [o_c10, o_c10_fee, o_invariants], "C11": [o_c11, o_c11_zero, o_c11_clock, o_c11_topup], "C12": [o_c12, o_c12_live, o_c11_topup], "C14": [o_c14], "C16": [o_c16, o_c03, o_c06_plain, o_c08], "C18": [o_c18, o_c09, o_c15, o_c20, o_page_progress],
+    "C02": [o_c02, o_invariants, o_c03], "C03": [o_c03], "C04": [o_c04, o_invariants], "C05": [o_c05, o_c05_granter, o_c05_amount], "C07": [o_c07, o_c08, o_c08_prune, o_record_query, o_import_same], "C08": [o_c08, o_c08_prune, o_record_query, o_import_same],
+    "C09": [o_c09, o_owner_writes, o_import_same], "C10": [o_c10, o_c10_fee, o_invariants], "C11": [o_c11, o_c11_zero, o_c11_clock, o_c11_topup], "C12": [o_c12, o_c12_live, o_c11_topup], "C14": [o_c14], "C16": [o_c16, o_c03, o_c06_plain, o_c08, o_decide_succeeds], "C18": [o_c18, o_c09, o_c15, o_c20, o_page_progress, o_c08, o_c08_prune],
     "C13": [o_c13, o_owner_writes, o_import_same], "C17": [o_c17, o_page_progress, o_c04], "C20": [o_c20, o_page_progress], "C15": [o_c15, o_invariants], "C06": [o_c06], "C01": [],
 }
 
